@@ -134,6 +134,37 @@ fn generic_history(ctx: &mut Ctx, s: &J, vals: &[J], hist: usize) {
     }
 }
 
+/// The writer/reader pair with a caller-supplied header builder (AWS Glue: 03 00 + schema UUID).
+fn glue_history(ctx: &mut Ctx, hist: usize) {
+    use apache_avro::headers::{GlueSchemaUuidHeader, HeaderBuilder};
+    let s = json!({"k":"union","branches":[{"k":"null"},{"k":"string"},{"k":"long"}]});
+    let schema = Schema::parse_str(r#"["null","string","long"]"#).unwrap();
+    let uuid = apache_avro::Uuid::from_bytes([0x10, 0x32, 0x54, 0x76, 0x98, 0xba, 0xdc, 0xfe, 1, 2, 3, 4, 5, 6, 7, 8]);
+    let hb = GlueSchemaUuidHeader::from_uuid(uuid);
+    let Ok(Ok(mut writer)) = guarded(|| GenericSingleObjectWriter::new_with_capacity_and_header_builder(&schema, 8, &hb)) else { return };
+    let reader = GenericSingleObjectReader::builder().schema(schema.clone()).header(hb.build_header()).build().unwrap();
+    let vals = [Value::Union(1, Box::new(Value::String("a rather long first message".into()))), Value::Union(0, Box::new(Value::Null)),
+                Value::Union(2, Box::new(Value::Long(-1))), Value::Union(1, Box::new(Value::String("x".into())))];
+    for (step, v) in vals.iter().enumerate() {
+        if step == 2 {
+            let _ = guarded(std::panic::AssertUnwindSafe(|| writer.write_value_ref(v, &mut FailSink)));
+        }
+        let mut sink: Vec<u8> = vec![];
+        let r = guarded(std::panic::AssertUnwindSafe(|| writer.write_value_ref(v, &mut sink)));
+        let (res, returned, panicked) = match &r { Ok(Ok(n)) => ("ok", *n, false), Ok(Err(_)) => ("err", 0, false), Err(_) => ("err", 0, true) };
+        let rg = match guarded(std::panic::AssertUnwindSafe(|| { let mut sl: &[u8] = &sink; reader.read_value(&mut sl) })) {
+            Ok(Ok(x)) => json!({"ok":true,"v":value_to_vterm(&x)}),
+            _ => json!({"ok":false,"v":none_term()}),
+        };
+        // a reader expecting another UUID must refuse the message
+        let other = GenericSingleObjectReader::builder().schema(schema.clone())
+            .header(GlueSchemaUuidHeader::from_uuid(apache_avro::Uuid::from_bytes([9; 16])).build_header()).build().unwrap();
+        let foreign_ok = matches!(guarded(std::panic::AssertUnwindSafe(|| { let mut sl: &[u8] = &sink; other.read_value(&mut sl).is_ok() })), Ok(true));
+        ctx.emit(json!({"ev":"so-glue","hist":small(hist),"step":small(step),"s":s,"uuid":bytes_j(uuid.as_bytes()),"v":value_to_vterm(v),
+                        "res":res,"panic":panicked,"returned":small(returned),"msg":bytes_j(&sink),"read_generic":rg,"foreign_ok":foreign_ok}));
+    }
+}
+
 fn typed_history(ctx: &mut Ctx, hist: usize) {
     let s = msg_term();
     let schema = Msg::get_schema();
@@ -202,6 +233,7 @@ fn cmd_run(a: &Args) -> i32 {
         generic_history(&mut ctx, s, vs, h);
     }
     typed_history(&mut ctx, groups.len());
+    glue_history(&mut ctx, groups.len() + 1);
     out.flush().unwrap();
     0
 }
